@@ -166,6 +166,11 @@ class SymNum:
         return self.g.branch(self.e != 0)
 
     def __hash__(self):
+        if self.g.const_hash:
+            # every symbolic number hashes alike: dict/set membership is then decided by __eq__,
+            # i.e. by a fork on equality, not by realising a value.  Only sound when all keys of
+            # the container are symbolic (the harness opts in).
+            return 0
         return hash(self.g.realize(self.e))
 
     def __repr__(self):
@@ -359,6 +364,8 @@ class Engine:
         self.deadline = deadline
         self.path_log = None
         self.unknown_labels = []
+        self.const_hash = False
+        self.cache = {}         # harness-owned, survives across the paths of this engine
         if self.symbolic:
             self.solver = z3.Solver()
             self.solver.set('timeout', timeout_ms)
@@ -473,7 +480,8 @@ class Engine:
             raise Infeasible()
 
     def branch(self, cond):
-        cond = z3.simplify(cond)
+        if cond.num_args() > 0:
+            cond = z3.simplify(cond)
         if z3.is_true(cond):
             return True
         if z3.is_false(cond):
@@ -597,6 +605,8 @@ class Engine:
 
     def witness(self, label, cond=True):
         """record that a situation is reachable on a feasible path (vacuity guard)"""
+        if label in self.stats.witnesses:
+            return True        # one solver query per label and structure is enough
         if isinstance(cond, SymBool):
             if self._check(cond.e) != z3.sat:
                 return False
